@@ -268,7 +268,8 @@ class Repo:
                     m = self.resolve_method(fi.cls, f.attr, after=fi.cls)
                     if m is not None:
                         return params_of(m, True)
-                cands = [c.methods[f.attr] for c in self.all_classes() if f.attr in c.methods]
+                cands = [c.methods[f.attr] for c in self.all_classes()
+                         if f.attr in c.methods and c.module not in ('deco', 'cpt_solver_bkp')]
                 if cands:
                     lists = [params_of(m, True) for m in cands]
                     pre = []
